@@ -47,7 +47,8 @@ def readHeader (src : RState) : Except InitErr Header × RState :=
       let schemas := kv.filter (·.1 = key "avro.schema")
       let codecs := kv.filter (·.1 = key "avro.codec")
       let user := kv.filter fun e => e.1 ≠ key "avro.schema" ∧ e.1 ≠ key "avro.codec"
-      -- duplicate or missing `avro.schema`, duplicate `avro.codec`, duplicate user keys
+      -- duplicate or missing `avro.schema`, duplicate `avro.codec` (repeated USER keys are not rejected:
+      -- they are handed to the caller's metadata type in file order, as serde's `flatten` does)
       if schemas.length ≠ 1 ∨ codecs.length > 1 then (.error .header, s') else
       match schemas, bytesToStr? (schemas.headD ([], [])).2 with
       | _, none => (.error .header, s')
